@@ -1101,6 +1101,84 @@ func (c *Ctx) checkCompactHeaderConstants(rule string) {
 			return parts
 		}
 		sig := func(fn *ssa.Function) string { return strings.Join(sigOf(fn, 2), "; ") }
+		// the save (begin) / restore (end) of the enclosing struct's last field id happens on every
+		// path: a stack that stops saving beyond some depth, or a restore that is skipped, leaves the
+		// delta base of the enclosing struct wrong - on one side only once a message was abandoned
+		// mid-struct on a reused protocol object
+		for _, f := range []*ssa.Function{wf, rf} {
+			isBegin := strings.HasSuffix(pair[0], "Begin")
+			var find func(g *ssa.Function, depth int) bool // an unconditional save / restore in g
+			find = func(g *ssa.Function, depth int) bool {
+				found := false
+				instrsOf(g, func(in ssa.Instruction) {
+					if found {
+						return
+					}
+					uncond := func() bool {
+						for _, r := range returnsOf(g) {
+							if !dominates(in, r) {
+								return false
+							}
+						}
+						return true
+					}
+					switch x := in.(type) {
+					case *ssa.Store:
+						if isBegin {
+							// stack slot = lastFieldId
+							if fl, _ := loadedField(stripConv(x.Val)); fl == fLast {
+								if _, isIA := x.Addr.(*ssa.IndexAddr); isIA && uncond() {
+									found = true
+								}
+							}
+						} else if fa, _ := addrField(x.Addr); fa == fLast {
+							// lastFieldId = stack slot
+							if ld, isLd := stripConv(x.Val).(*ssa.UnOp); isLd && ld.Op == token.MUL {
+								if _, isIA := ld.X.(*ssa.IndexAddr); isIA && uncond() {
+									found = true
+								}
+							}
+						}
+					case *ssa.Call:
+						if isBegin && isBuiltin(x, "append") && uncond() {
+							for _, a := range x.Call.Args[1:] {
+								if fl, _ := loadedField(stripConv(a)); fl == fLast {
+									found = true
+								}
+								if sl, isSl := a.(*ssa.Slice); isSl {
+									// append(stack, v) is compiled as append(stack, [1]int{v}[:]...)
+									if al, isAl := sl.X.(*ssa.Alloc); isAl && al.Referrers() != nil {
+										for _, rr := range *al.Referrers() {
+											if ia, isIA := rr.(*ssa.IndexAddr); isIA && ia.Referrers() != nil {
+												for _, u := range *ia.Referrers() {
+													if st, isSt := u.(*ssa.Store); isSt {
+														if fl, _ := loadedField(stripConv(st.Val)); fl == fLast {
+															found = true
+														}
+													}
+												}
+											}
+										}
+									}
+								}
+							}
+						}
+						if h := staticCallee(x); h != nil && h.Pkg == g.Pkg && h.Blocks != nil && h.Signature.Recv() != nil && depth > 0 && uncond() {
+							if find(h, depth-1) {
+								found = true
+							}
+						}
+					}
+				})
+				return found
+			}
+			what := "saves the enclosing struct's last field id on the stack"
+			if !isBegin {
+				what = "restores the enclosing struct's last field id from the stack"
+			}
+			c.check(find(f, 2), rule, c.fnKey(f)+":stack", f.Pos(), what+" on every path",
+				f.Name()+" does not "+strings.Replace(what, "s the", " the", 1)+" on every path (the save / restore is conditional): beyond that condition a nested struct's end leaves the enclosing struct's delta base wrong, so field headers are mis-encoded or intact messages rejected")
+		}
 		ws, rs := sig(wf), sig(rf)
 		c.check(ws == rs && ws != "", rule, "thrift.TCompactProtocol:"+pair[0]+"/"+pair[1], wf.Pos(), "writer and reader maintain the field-id stack identically ("+ws+")",
 			fmt.Sprintf("%s does {%s} but %s does {%s}: the field-id stack (delta base) diverges between writer and reader in nested structs", pair[0], ws, pair[1], rs))
